@@ -12,14 +12,16 @@ import rd_common as R
 PID = "C16"
 CLUSTER = "Reader"
 PROPS = "props/C16.v"
-N_QUICK = 1500
+N_QUICK = 2100
 N_THOROUGH = 24000
 RULE = ("whole files as line lists: 0-4 pragma lines (no/unknown/basic gdc-1.0.0/annotated built-in scheme, optional "
         "sort.order of each kind, optional contigs), column line present/absent/last, 0-5 data lines; streams valid "
         "(by construction from texts the real column classes accept, sorted), single-defect (bad/duplicate pragma, "
         "dropped/renamed/duplicated column name, wrong field count, invalid field, blank line, pragma among data, "
         "control/non-ASCII characters, CRLF, overriding scheme, order break, chromosome missing from contigs), boundary "
-        "(every H in 0..4 x 9 tails, empty input), adversarial (1-4 defects combined); each under Strict/Lenient/Silent/"
+        "(every H in 0..4 x 9 tails, empty input), typed-special (gdc-1.0.0 files with %/brace/backslash/quote texts in "
+        "columns whose class rejects them, and zero-like texts 0/00/-0/empty in Chromosome/Start/End under every sort "
+        "order with contig lists containing 0), adversarial (1-4 defects combined); each under Strict/Lenient/Silent/"
         "default; non-trivial: at least one data line was reached or an exception was raised; distinct by hash of "
         "(lines, mode, override)")
 ASSUMPTIONS = [
@@ -91,6 +93,8 @@ def generate(rng, n):
     for c in R.reader_boundary_cases():
         for m in R.MODES:
             out.append(dict(c, mode=m))
+    for k, c in enumerate(R.typed_special_cases()):
+        out.append(dict(c, mode=R.MODES[k % 3]))
     while len(out) < n:
         stream = rng.choice(["valid", "defect", "defect", "adversarial", "adversarial", "boundary"])
         c = R.gen_reader_case(rng, stream)
